@@ -49,7 +49,7 @@ def generate(seed, tier):
     elif fr < 0.7:
         filt = {"names": [rng.choice(FILTERS)], "how": rng.choice(["str", "enum", "callable"])}
     else:
-        filt = {"names": [rng.choice(FILTERS) for _ in range(rng.randint(2, 3))], "how": rng.choice(["list_str", "list_enum", "list_mixed", "callable"])}
+        filt = {"names": [rng.choice(FILTERS) for _ in range(rng.randint(2, 3))], "how": rng.choice(["list_str", "list_enum", "list_mixed", "callable", "generator", "tuple"])}
     mode = "call" if rng.random() < 0.25 else "step"
     n = n_ops(spec)
     ops = []
@@ -62,7 +62,7 @@ def generate(seed, tier):
         ops.append(["rule_step", int(rng.random() < 0.6), 0])
     two = mode == "step" and rule["kind"] in ("mwkr_pair", "score", "tie") and rng.random() < 0.4
     cfg = {"instance": spec, "rule": rule, "chooser": rng.choice(["first", "random"]), "chooser_how": rng.choice(["str", "enum", "callable"]),
-           "filter": filt, "mode": mode, "two_dispatchers": two, "call_form": rng.choice(["call", "call", "solve", "solve_with_dispatcher", "twice"]),
+           "filter": filt, "mode": mode, "two_dispatchers": two, "refused_observer_first": rng.random() < 0.08, "call_form": rng.choice(["call", "call", "solve", "solve_with_dispatcher", "twice"]),
            "clock_seed": rng.randrange(1 << 30), "other_seed": rng.randrange(1 << 30)}
     if two:
         # a second dispatcher over a DIFFERENT instance shares the solver (and, for the observer-based rule, the
@@ -148,6 +148,10 @@ def build_filter_arg(filt):
         return list(names)
     if how == "list_enum":
         return [ReadyOperationsFilterType(n) for n in names]
+    if how == "generator":
+        return (n for n in list(names))
+    if how == "tuple":
+        return tuple(ReadyOperationsFilterType(n) for n in names)
     return [n if i % 3 == 0 else (ReadyOperationsFilterType(n) if i % 3 == 1 else ready_operations_filter_factory(n)) for i, n in enumerate(names)]
 
 
@@ -238,6 +242,14 @@ def execute_step(case, ctx):
         return
     names = filter_names(cfg)
     sides = [Side(cfg["instance"], solver, names)]
+    if cfg.get("refused_observer_first"):
+        # an earlier refused observer request on the dispatcher the solver is going to drive
+        from job_shop_lib.dispatching.feature_observers import PositionInJobObserver, FeatureType
+
+        try:
+            PositionInJobObserver(sides[0].disp, feature_types=[FeatureType.JOBS])
+        except Exception:  # noqa: BLE001
+            ctx.fault("refused_observer_request")
     if cfg["two_dispatchers"]:
         sides.append(Side(cfg.get("instance2", cfg["instance"]), solver, names))
     # separate scorer objects for the harness's own evaluation of scores
@@ -317,7 +329,7 @@ def execute_step(case, ctx):
             solver.step(d)
         except Exception as e:  # noqa: BLE001
             own = owner_of_exception(e, "C04")
-            if own in ("C04", "C11"):
+            if own in ("C04", "C11", "C01"):
                 ctx.fail("rule_raised", f"solver.step raised {short_exc(e)} in state nxt={m.nxt}", exc=type(e).__name__, rule=rule["kind"])
                 return
             raise Foreign(own, short_exc(e))
